@@ -9,9 +9,9 @@ Require Import Tinode.Sys.Lifecycle Tinode.Sys.LifecycleProofs Tinode.Sys.Lifecy
 
 Definition issue (c : config) (l : label) : list req :=
   match l with
-  | ClientSub s t => [mkReq s (c_nextrid c) KSub t true]
-  | ClientLeave s t u => [mkReq s (c_nextrid c) (KLeave u) t true]
-  | ClientDel s t => [mkReq s (c_nextrid c) KDel t true]
+  | ClientSub s t ch => [mkReq s (c_nextrid c) KSub t true ch]
+  | ClientLeave s t u ch => [mkReq s (c_nextrid c) (KLeave u) t true ch]
+  | ClientDel s t => [mkReq s (c_nextrid c) KDel t true false]
   | _ => []
   end.
 
@@ -138,11 +138,32 @@ Ltac inq_same :=
   let r := fresh "r" in let Hi := fresh "Hi" in let H := fresh "H" in
   intros r Hi H; left; unfold inq in *; simpl in *; tauto.
 
+Lemma inq_pre404 : forall c r0 e r, inq r (pre404 c r0 e) <-> inq r c.
+Proof.
+  intros c r0 e r. destruct (pre404_frame c r0 e) as (_ & _ & _ & E1 & E2 & E3 & E4 & E5 & _).
+  unfold inq. rewrite E1, E2, E3, E4, E5. tauto.
+Qed.
+
+Lemma inq_unreg_step : forall c i a e c', unreg_step c i a e = Some c' ->
+  forall r, r_init r = true -> inq r c' -> inq r c \/ In r [].
+Proof.
+  intros c i a e c' Hs. unfold unreg_step in Hs.
+  destruct (negb (is_run (i_phase (c_inst c i)))); [discriminate|].
+  destruct (take_first i (c_tunreg c)) as [[q unreg']|] eqn:E; [|discriminate].
+  destruct (in_take_first _ _ _ _ _ E) as [Hq Hsub]. simpl in Hs. inv_some.
+  assert (Hgen : forall c2, c_hjoin c2 = c_hjoin c -> c_inits c2 = c_inits c -> c_treg c2 = c_treg c -> c_tunreg c2 = unreg' ->
+            c_hunreg c2 = c_hunreg c -> forall r, r_init r = true -> inq r c2 -> inq r c \/ In r []).
+  { intros c2 E1 E2 E3 E4 E5 r Hi H. left. unfold inq in *. rewrite E1, E2, E3, E4, E5 in H.
+    destruct H as [H|[H|[H|[H|H]]]]; try tauto. right. right. right. left. eapply map_snd_sub; eauto. }
+  apply Hgen; destruct (inactive (c_inst c i)); destruct (r_init q); try (destruct (r_kind q) as [|[|]|]); simpl;
+    repeat match goal with |- context [if ?b then _ else _] => destruct b eqn:?; simpl end; reflexivity.
+Qed.
+
 (* every client request found in a queue was issued: queues only move requests around *)
 Lemma inq_step : forall c l c', step c l c' -> forall r, r_init r = true -> inq r c' -> inq r c \/ In r (issue c l).
 Proof.
   intros c l c' Hs. unfold step in Hs.
-  destruct l as [s0 t0|s0 t0 u0|s0 t0| |i ok|i ok|i|i s0|i|vis|i|s0|s0|s0]; simpl in Hs.
+  destruct l as [s0 t0 ch0|s0 t0 u0 ch0|s0 t0| |i ok|i ok|i|i s0|i|vis|i|s0|s0|s0]; simpl in Hs.
   - destruct (s_term (c_sess c s0) || negb (s_inflight (c_sess c s0) =? 0)); [discriminate|].
     destruct (lookup t0 (s_subs (c_sess c s0))); inv_some; [inq_same|].
     intros r Hi H. unfold inq in *. simpl in *. destruct H as [H|H]; [|tauto].
@@ -198,17 +219,10 @@ Proof.
               c_hunreg c2 = c_hunreg c -> forall r, r_init r = true -> inq r c2 -> inq r c \/ In r []).
     { intros c2 E1 E2 E3 E4 E5 r Hi H. left. unfold inq in *. rewrite E1, E2, E3, E4, E5 in H.
       destruct H as [H|[H|[H|[H|H]]]]; try tauto. right. right. left. eapply map_snd_sub; eauto. }
-    apply Hgen; destruct (inactive (c_inst c i)); try (destruct (lookup _ _); [|destruct ok]); reflexivity.
+    apply Hgen; destruct (inactive (c_inst c i)); try (destruct (lookup _ _); [|destruct (verify_chan _ _ _) as [aC [|]]; [|destruct ok]]); reflexivity.
   - (* TopicUnreg *)
-    destruct (negb (is_run (i_phase (c_inst c i)))); [discriminate|].
-    destruct (take_first i (c_tunreg c)) as [[q unreg']|] eqn:E; [|discriminate].
-    destruct (in_take_first _ _ _ _ _ E) as [Hq Hsub]. simpl in Hs. inv_some.
-    assert (Hgen : forall c2, c_hjoin c2 = c_hjoin c -> c_inits c2 = c_inits c -> c_treg c2 = c_treg c -> c_tunreg c2 = unreg' ->
-              c_hunreg c2 = c_hunreg c -> forall r, r_init r = true -> inq r c2 -> inq r c \/ In r []).
-    { intros c2 E1 E2 E3 E4 E5 r Hi H. left. unfold inq in *. rewrite E1, E2, E3, E4, E5 in H.
-      destruct H as [H|[H|[H|[H|H]]]]; try tauto. right. right. right. left. eapply map_snd_sub; eauto. }
-    apply Hgen; destruct (inactive (c_inst c i)); destruct (r_init q); try (destruct (r_kind q) as [|[|]|]); simpl;
-      repeat match goal with |- context [if ?b then _ else _] => destruct b eqn:?; simpl end; reflexivity.
+    destruct (exec_unreg_inv _ _ _ Hs) as (r0 & rest0 & aC & eR & _ & _ & Hu).
+    intros r Hi H. destruct (inq_unreg_step _ _ _ _ _ Hu r Hi H) as [X|[]]. left. apply (inq_pre404 c r0 eR r). exact X.
   - exec_split Hs; inv_some; inq_same.
   - exec_split Hs; inv_some.
     intros r Hi H. left. unfold inq in *. simpl in *. destruct H as [H|[H|[H|[H|H]]]]; try tauto.
@@ -265,27 +279,66 @@ Definition lossy (c : config) (l : label) : bool :=
   | _ => false
   end.
 
+(* The step at which the code answers one request TWICE: a {leave} that addresses a topic WITHOUT channel
+   functionality by a channel name: verifyChannelAccess fails, handleLeaveRequest queues the 404 and goes on
+   (topic.go:697-702), and the rest of the function answers again (200 / 403 / 404 / 503). *)
+Definition noisy (c : config) (l : label) : bool :=
+  match l with
+  | TopicUnreg i =>
+      match take_first i (c_tunreg c) with
+      | Some (r, _) => r_init r && r_aschan r && negb (c_ischan c (i_name (c_inst c i)))
+      | None => false
+      end
+  | _ => false
+  end.
+
+(* ... and the request whose account it raises *)
+Definition extra (c : config) (l : label) (q : req) : nat :=
+  match l with
+  | TopicUnreg i =>
+      match take_first i (c_tunreg c) with
+      | Some (r, _) => if noisy c l && hit (r_rid q) r then 1 else 0
+      | None => 0
+      end
+  | _ => 0
+  end.
+
+Lemma extra_quiet : forall c l q, noisy c l = false -> extra c l q = 0.
+Proof.
+  intros c l q H. destruct l; simpl in *; auto.
+  destruct (take_first i (c_tunreg c)) as [[r rest]|]; auto. rewrite H. reflexivity.
+Qed.
+
 Definition uniq (q : req) (c : config) : Prop := forall r, inq r c -> hit (r_rid q) r = true -> r = q.
 
 (* what one step may do to the account of an already issued request q *)
 Definition conserves (c : config) (l : label) (c' : config) (q : req) : Prop :=
+  acct q c' <= acct q c + extra c l q /\
+  (s_term (c_sess c' (r_sid q)) = false -> lossy c l = false -> noisy c l = false ->
+   acct q c' = acct q c \/ (acct q c' + 1 = acct q c /\ is_leave q = true /\ noticed q c' = true)).
+
+(* the form all steps but the noisy one satisfy *)
+Definition conserves0 (c : config) (l : label) (c' : config) (q : req) : Prop :=
   acct q c' <= acct q c /\
   (s_term (c_sess c' (r_sid q)) = false -> lossy c l = false ->
    acct q c' = acct q c \/ (acct q c' + 1 = acct q c /\ is_leave q = true /\ noticed q c' = true)).
+
+Lemma conserves0_conserves : forall c l c' q, conserves0 c l c' q -> conserves c l c' q.
+Proof. intros c l c' q [A B]. split; [lia|auto]. Qed.
 
 Ltac acct_simpl :=
   unfold acct, queuedN; simpl; unfold on_sess, upd; simpl;
   rewrite ?cR_app, ?cP_app, ?cH_app, ?cR_cons, ?cP_cons, ?cH_cons_del, ?cH_cons_unl, ?cR_nil, ?cP_nil, ?cH_nil.
 
-Lemma hit_new : forall q s k t n, r_rid q <> n -> hit (r_rid q) (mkReq s n k t true) = false.
+Lemma hit_new : forall q s k t n ch, r_rid q <> n -> hit (r_rid q) (mkReq s n k t true ch) = false.
 Proof. intros. unfold hit. simpl. destruct (Nat.eqb_spec n (r_rid q)); [congruence|reflexivity]. Qed.
 
-Lemma hitp_new : forall q s k t b cd n, r_rid q <> n -> hitp (r_rid q) (rep (mkReq s n k t b) cd) = false.
+Lemma hitp_new : forall q s k t b cd n ch, r_rid q <> n -> hitp (r_rid q) (rep (mkReq s n k t b ch) cd) = false.
 Proof. intros. rewrite hitp_rep. simpl. destruct (Nat.eqb_spec n (r_rid q)); [congruence|reflexivity]. Qed.
 
-Lemma cons_client_sub : forall c s t c' q, exec (ClientSub s t) c = Some c' -> r_rid q <> c_nextrid c -> conserves c (ClientSub s t) c' q.
+Lemma cons_client_sub : forall c s t ch c' q, exec (ClientSub s t ch) c = Some c' -> r_rid q <> c_nextrid c -> conserves0 c (ClientSub s t ch) c' q.
 Proof.
-  intros c s t c' q Hs Hn. simpl in Hs.
+  intros c s t ch c' q Hs Hn. simpl in Hs.
   destruct (s_term (c_sess c s)) eqn:Et; [discriminate|]. simpl in Hs.
   destruct (negb (s_inflight (c_sess c s) =? 0)); [discriminate|].
   assert (X : acct q c' = acct q c).
@@ -295,9 +348,9 @@ Proof.
   split; [lia|auto].
 Qed.
 
-Lemma cons_client_leave : forall c s t u c' q, exec (ClientLeave s t u) c = Some c' -> r_rid q <> c_nextrid c -> conserves c (ClientLeave s t u) c' q.
+Lemma cons_client_leave : forall c s t u ch c' q, exec (ClientLeave s t u ch) c = Some c' -> r_rid q <> c_nextrid c -> conserves0 c (ClientLeave s t u ch) c' q.
 Proof.
-  intros c s t u c' q Hs Hn. simpl in Hs.
+  intros c s t u ch c' q Hs Hn. simpl in Hs.
   destruct (s_term (c_sess c s)) eqn:Et; [discriminate|]. simpl in Hs.
   destruct (negb (s_inflight (c_sess c s) =? 0)); [discriminate|].
   assert (X : acct q c' = acct q c).
@@ -307,11 +360,11 @@ Proof.
   split; [lia|auto].
 Qed.
 
-Lemma cons_client_del : forall c s t c' q, exec (ClientDel s t) c = Some c' -> r_rid q <> c_nextrid c -> conserves c (ClientDel s t) c' q.
+Lemma cons_client_del : forall c s t c' q, exec (ClientDel s t) c = Some c' -> r_rid q <> c_nextrid c -> conserves0 c (ClientDel s t) c' q.
 Proof.
   intros c s t c' q Hs Hn. simpl in Hs.
   destruct (s_term (c_sess c s) || negb (c_user c s =? c_owner c t)); [discriminate|]. inv_some.
-  assert (X : acct q (set_hunreg (set_nextrid c (S (c_nextrid c))) (c_hunreg c ++ [HDel (mkReq s (c_nextrid c) KDel t true)])) = acct q c).
+  assert (X : acct q (set_hunreg (set_nextrid c (S (c_nextrid c))) (c_hunreg c ++ [HDel (mkReq s (c_nextrid c) KDel t true false)])) = acct q c).
   { acct_simpl. rewrite hit_new by auto. lia. }
   split; [lia|auto].
 Qed.
@@ -338,7 +391,7 @@ Qed.
 Lemma g_id : forall x : sess, s_out x = s_out x /\ s_term x = s_term x. Proof. auto. Qed.
 Lemma g_done : forall x : sess, s_out (s_donereq x) = s_out x /\ s_term (s_donereq x) = s_term x. Proof. auto. Qed.
 
-Lemma cons_same : forall c l c' q, acct q c' = acct q c -> conserves c l c' q.
+Lemma cons_same : forall c l c' q, acct q c' = acct q c -> conserves0 c l c' q.
 Proof. intros c l c' q X. split; [lia|auto]. Qed.
 
 (* the consumed request r gets its reply *)
@@ -349,9 +402,9 @@ Lemma cons_answered : forall c l c' q r g cd,
   s_term (c_sess c' (r_sid q)) = s_term (c_sess c (r_sid q)) ->
   r_init r = true -> (hit (r_rid q) r = true -> r = q) ->
   (forall x, s_out (g x) = s_out x /\ s_term (g x) = s_term x) ->
-  conserves c l c' q.
+  conserves0 c l c' q.
 Proof.
-  intros c l c' q r g cd Hq Hs Hterm Hri Hu Hg. unfold conserves, acct. rewrite Hs, Hterm.
+  intros c l c' q r g cd Hq Hs Hterm Hri Hu Hg. unfold conserves0, acct. rewrite Hs, Hterm.
   rewrite (ans_upd_reply q r (c_sess c) g cd Hri Hu Hg). split.
   - destruct (s_term (c_sess c (r_sid q))); destruct (hit (r_rid q) r); lia.
   - intros Ht0 _. left. rewrite Ht0. destruct (hit (r_rid q) r); lia.
@@ -366,14 +419,14 @@ Ltac sess_eq := simpl; unfold on_sess, upd; simpl;
 Lemma cons_dropped : forall c l c' q r,
   queuedN (r_rid q) c' + (if hit (r_rid q) r then 1 else 0) = queuedN (r_rid q) c ->
   ans (r_rid q) (c_sess c' (r_sid q)) = ans (r_rid q) (c_sess c (r_sid q)) ->
-  lossy c l = true -> conserves c l c' q.
+  lossy c l = true -> conserves0 c l c' q.
 Proof.
-  intros c l c' q r Hq Ha Hl. unfold conserves, acct. rewrite Ha. split.
+  intros c l c' q r Hq Ha Hl. unfold conserves0, acct. rewrite Ha. split.
   - destruct (hit (r_rid q) r); lia.
   - intros _ X. congruence.
 Qed.
 
-Lemma cons_hubjoin : forall c c' q, exec HubJoin c = Some c' -> init_true c -> uniq q c -> conserves c HubJoin c' q.
+Lemma cons_hubjoin : forall c c' q, exec HubJoin c = Some c' -> init_true c -> uniq q c -> conserves0 c HubJoin c' q.
 Proof.
   intros c c' q Hs (H1 & _ & _) U. simpl in Hs.
   destruct (c_hjoin c) as [|r rest] eqn:E; [discriminate|]. simpl in Hs.
@@ -392,7 +445,7 @@ Lemma g_setsubs : forall l x, s_out (s_setsubs x l) = s_out x /\ s_term (s_setsu
 Lemma in_map_snd : forall (i : inst) (r : req) l, In (i, r) l -> In r (map snd l).
 Proof. intros i r l H. apply (in_map snd) in H. exact H. Qed.
 
-Lemma cons_topicreg : forall c i ok c' q, exec (TopicReg i ok) c = Some c' -> init_true c -> uniq q c -> conserves c (TopicReg i ok) c' q.
+Lemma cons_topicreg : forall c i ok c' q, exec (TopicReg i ok) c = Some c' -> init_true c -> uniq q c -> conserves0 c (TopicReg i ok) c' q.
 Proof.
   intros c i ok c' q Hs (_ & _ & H3) U. simpl in Hs.
   destruct (negb (is_run (i_phase (c_inst c i)))); [discriminate|].
@@ -407,15 +460,17 @@ Proof.
   { apply (cons_answered _ _ _ q r (fun x => x) CLocked); auto using g_id; [unfold queuedN; simpl; lia| |]; sess_eq. }
   destruct (lookup _ _).
   { apply (cons_answered _ _ _ q r (fun x => x) CAlready); auto using g_id; [unfold queuedN; simpl; lia| |]; sess_eq. }
+  destruct (verify_chan _ _ _) as [aC [|]].
+  { apply (cons_answered _ _ _ q r (fun x => x) CNotFound); auto using g_id; [unfold queuedN; simpl; lia| |]; sess_eq. }
   destruct ok.
   - apply (cons_answered _ _ _ q r (fun x => s_setsubs x ((i_name (c_inst c i), i) :: s_subs x)) COk); auto using g_setsubs;
       [unfold queuedN; simpl; lia| |]; sess_eq.
-  - apply (cons_answered _ _ _ q r (fun x => x) CDenied); auto using g_id; [unfold queuedN; simpl; lia| |]; sess_eq.
+  - apply (cons_answered _ _ _ q r (fun x => x) (if aC then CUseOther else CDenied)); auto using g_id; [unfold queuedN; simpl; lia| |]; sess_eq.
 Qed.
 
 Definition dels_init (c : config) : Prop := forall r, In (HDel r) (c_hunreg c) -> r_init r = true.
 
-Lemma cons_hubunreg : forall c vis c' q, exec (HubUnreg vis) c = Some c' -> dels_init c -> uniq q c -> conserves c (HubUnreg vis) c' q.
+Lemma cons_hubunreg : forall c vis c' q, exec (HubUnreg vis) c = Some c' -> dels_init c -> uniq q c -> conserves0 c (HubUnreg vis) c' q.
 Proof.
   intros c vis c' q Hs Hd U. simpl in Hs.
   destruct (c_hunreg c) as [|[t|r] rest] eqn:E; [discriminate| |]; simpl in Hs.
@@ -444,9 +499,9 @@ Proof. reflexivity. Qed.
 Lemma hit_noninit : forall n r, r_init r = false -> hit n r = false.
 Proof. intros n r H. unfold hit. now rewrite H. Qed.
 
-Lemma cons_topicunreg : forall c i c' q, exec (TopicUnreg i) c = Some c' -> uniq q c -> conserves c (TopicUnreg i) c' q.
+Lemma cons_unreg_step : forall c i a e c' q, unreg_step c i a e = Some c' -> uniq q c -> conserves0 c (TopicUnreg i) c' q.
 Proof.
-  intros c i c' q Hs U. simpl in Hs.
+  intros c i a e c' q Hs U. unfold unreg_step in Hs.
   destruct (negb (is_run (i_phase (c_inst c i)))); [discriminate|].
   destruct (take_first i (c_tunreg c)) as [[r unreg']|] eqn:E; [|discriminate].
   destruct (in_take_first _ _ _ _ _ E) as [Hin _].
@@ -464,14 +519,16 @@ Proof.
     destruct (r_kind r) as [|[|]|] eqn:Ek; simpl.
     + (* KSub: treated like a leave *)
       destruct (mem (r_sid r) (i_sessions (c_inst c i))) eqn:Em.
-      * apply (cons_answered _ _ _ q r (fun x => s_setsubs x (remove_key (i_name (c_inst c i)) (s_subs x))) COk); auto using g_setsubs;
+      * apply (cons_answered _ _ _ q r (fun x => s_setsubs x (remove_key (i_name (c_inst c i)) (s_subs x))) (if Bool.eqb (mem (r_sid r) (i_chansub (c_inst c i))) a then COk else CNotFound)); auto using g_setsubs;
           first [apply Hq; reflexivity | sess_eq].
       * apply (cons_dropped _ _ _ q r); [apply Hq; reflexivity|sess_eq|].
         simpl. rewrite E, Hri, Ein, Ek, Em. unfold is_leave. rewrite Ek. reflexivity.
     + (* unsubscribe *)
       destruct (Nat.eqb (c_user c (r_sid r)) (c_owner c (i_name (c_inst c i)))) eqn:Eo.
       * apply (cons_answered _ _ _ q r (fun x => x) CDenied); auto using g_id; first [apply Hq; reflexivity | sess_eq].
-      * apply (cons_answered _ _ _ q r (fun x => x) COk); auto using g_id;
+      * destruct e.
+        { apply (cons_answered _ _ _ q r (fun x => x) CNotFound); auto using g_id; first [apply Hq; reflexivity | sess_eq]. }
+        apply (cons_answered _ _ _ q r (fun x => x) COk); auto using g_id;
           first [apply Hq; reflexivity
                 | simpl; unfold on_sess, upd; simpl;
                   repeat match goal with |- context [Nat.eqb ?a ?b] => destruct (Nat.eqb_spec a b); subst; simpl end;
@@ -481,12 +538,12 @@ Proof.
                   try (apply ans_ext; simpl; autorewrite with lc; reflexivity) ].
     + (* leave *)
       destruct (mem (r_sid r) (i_sessions (c_inst c i))) eqn:Em.
-      * apply (cons_answered _ _ _ q r (fun x => s_setsubs x (remove_key (i_name (c_inst c i)) (s_subs x))) COk); auto using g_setsubs;
+      * apply (cons_answered _ _ _ q r (fun x => s_setsubs x (remove_key (i_name (c_inst c i)) (s_subs x))) (if Bool.eqb (mem (r_sid r) (i_chansub (c_inst c i))) a then COk else CNotFound)); auto using g_setsubs;
           first [apply Hq; reflexivity | sess_eq].
       * (* the session is not attached any more: nothing is said *)
         assert (Ha : ans (r_rid q) (c_sess (on_sess (set_tunreg c unreg') (r_sid r) s_donereq) (r_sid q)) = ans (r_rid q) (c_sess c (r_sid q))) by sess_eq.
         assert (Hq' := Hq (on_sess (set_tunreg c unreg') (r_sid r) s_donereq) eq_refl eq_refl eq_refl eq_refl eq_refl).
-        unfold conserves, acct. rewrite Ha. split; [destruct (hit (r_rid q) r); lia|].
+        unfold conserves0, acct. rewrite Ha. split; [destruct (hit (r_rid q) r); lia|].
         intros Ht Hl. destruct (hit (r_rid q) r) eqn:Eh; [|left; lia].
         right. pose proof (Hu eq_refl) as Hrq. subst r.
         simpl in Hl. rewrite E, Hri, Ein, Ek, Em in Hl. simpl in Hl.
@@ -495,7 +552,7 @@ Proof.
         unfold noticed in *. simpl. unfold on_sess, upd. simpl. rewrite Nat.eqb_refl. simpl. exact Hl2.
     + (* KDel: treated like a leave *)
       destruct (mem (r_sid r) (i_sessions (c_inst c i))) eqn:Em.
-      * apply (cons_answered _ _ _ q r (fun x => s_setsubs x (remove_key (i_name (c_inst c i)) (s_subs x))) COk); auto using g_setsubs;
+      * apply (cons_answered _ _ _ q r (fun x => s_setsubs x (remove_key (i_name (c_inst c i)) (s_subs x))) (if Bool.eqb (mem (r_sid r) (i_chansub (c_inst c i))) a then COk else CNotFound)); auto using g_setsubs;
           first [apply Hq; reflexivity | sess_eq].
       * apply (cons_dropped _ _ _ q r); [apply Hq; reflexivity|sess_eq|].
         simpl. rewrite E, Hri, Ein, Ek, Em. unfold is_leave. rewrite Ek. reflexivity.
@@ -507,6 +564,47 @@ Proof.
          pose proof (Hq c2 eq_refl eq_refl eq_refl eq_refl eq_refl) as Hq';
          assert (Ha : ans (r_rid q) (c_sess c2 (r_sid q)) = ans (r_rid q) (c_sess c (r_sid q))) by sess_eq end);
       rewrite Ha; lia.
+Qed.
+
+Lemma is_notice_rep : forall t r cd, is_notice t (rep r cd) = false.
+Proof. reflexivity. Qed.
+
+Lemma noticed_pre404 : forall c r0 e q, noticed q (pre404 c r0 e) = noticed q c.
+Proof.
+  intros c r0 e q. unfold noticed, pre404. destruct e; auto. simpl. unfold upd.
+  destruct (Nat.eqb_spec (r_sid q) (r_sid r0)) as [->|]; auto.
+  unfold s_reply. destruct (s_term (c_sess c (r_sid r0))); auto. simpl.
+  rewrite existsb_app. simpl. rewrite orb_false_r. reflexivity.
+Qed.
+
+Lemma lossy_unreg_pre404 : forall c r0 e i, lossy (pre404 c r0 e) (TopicUnreg i) = lossy c (TopicUnreg i).
+Proof.
+  intros c r0 e i. simpl. destruct (pre404_frame c r0 e) as (Ei & _ & _ & _ & _ & _ & _ & Eu & _). rewrite Ei, Eu.
+  destruct (take_first i (c_tunreg c)) as [[r rest]|]; auto. rewrite noticed_pre404. reflexivity.
+Qed.
+
+Lemma cons_topicunreg : forall c i c' q, exec (TopicUnreg i) c = Some c' -> uniq q c -> conserves c (TopicUnreg i) c' q.
+Proof.
+  intros c i c' q Hs U.
+  destruct (exec_unreg_inv _ _ _ Hs) as (r0 & rest0 & aC & eR & E & He & Hu).
+  assert (U1 : uniq q (pre404 c r0 eR)).
+  { intros r Hr Hh. apply U; auto. apply (inq_pre404 c r0 eR r). exact Hr. }
+  pose proof (cons_unreg_step _ _ _ _ _ q Hu U1) as [A B].
+  destruct eR.
+  - (* the 404 of l.697-702 was queued: the request is answered a second time below *)
+    destruct (He eq_refl) as (Hri & Hch & Hic).
+    assert (Hn : noisy c (TopicUnreg i) = true) by (simpl; rewrite E, Hri, Hch, Hic; reflexivity).
+    destruct (in_take_first _ _ _ _ _ E) as [Hin _].
+    assert (Hu0 : hit (r_rid q) r0 = true -> r0 = q).
+    { apply U. right. right. right. left. eapply in_map_snd; eauto. }
+    assert (X : acct q (pre404 c r0 true) <= acct q c + (if hit (r_rid q) r0 then 1 else 0)).
+    { unfold acct, queuedN. destruct (pre404_frame c r0 true) as (_ & _ & _ & -> & -> & -> & -> & -> & _).
+      unfold pre404. simpl. rewrite (ans_upd_reply q r0 (c_sess c) (fun x => x) CNotFound Hri Hu0 g_id).
+      destruct (s_term (c_sess c (r_sid q))); destruct (hit (r_rid q) r0); lia. }
+    split.
+    + unfold extra. rewrite E, Hn. simpl. lia.
+    + intros _ _ Hq. congruence.
+  - unfold pre404 in *. split; [lia|]. intros Ht Hl _. apply B; auto.
 Qed.
 
 (* the drain of a failed topic's unreg queue answers every client request it removes *)
@@ -540,7 +638,7 @@ Proof.
       * intros Ht. specialize (C Ht). lia.
 Qed.
 
-Lemma cons_initdone : forall c i ok c' q, exec (InitDone i ok) c = Some c' -> init_true c -> uniq q c -> conserves c (InitDone i ok) c' q.
+Lemma cons_initdone : forall c i ok c' q, exec (InitDone i ok) c = Some c' -> init_true c -> uniq q c -> conserves0 c (InitDone i ok) c' q.
 Proof.
   intros c i ok c' q Hs (_ & H2 & _) U. simpl in Hs.
   destruct (negb (is_init (i_phase (c_inst c i)))); [discriminate|].
@@ -571,8 +669,8 @@ Proof.
                                      cP (r_rid q) (filter (fun x => negb (i =? fst x)) (c_treg c)) + cP (r_rid q) unreg' + cH (r_rid q) (c_hunreg c) ->
               ans (r_rid q) (c_sess c2 (r_sid q)) = ans (r_rid q) (f' (r_sid q)) ->
               s_term (c_sess c2 (r_sid q)) = s_term (f' (r_sid q)) ->
-              conserves c (InitDone i false) c2 q).
-    { intros c2 E1 E2 E3. unfold conserves, acct. rewrite E1, E2, E3, A, cR_app. unfold queuedN. split.
+              conserves0 c (InitDone i false) c2 q).
+    { intros c2 E1 E2 E3. unfold conserves0, acct. rewrite E1, E2, E3, A, cR_app. unfold queuedN. split.
       - destruct (s_term (c_sess c (r_sid q))); destruct (hit (r_rid q) r); lia.
       - intros Ht _. left. specialize (C Ht). rewrite Ht in C. destruct (hit (r_rid q) r); lia. }
     destruct (take_first i (c_texit c)) as [[b exit']|]; inv_some; apply Hfin; try reflexivity;
@@ -584,53 +682,65 @@ Lemma conserves_step : forall c l c' q,
   step c l c' -> init_true c -> dels_init c -> uniq q c -> (r_rid q <> c_nextrid c \/ issue c l = []) -> conserves c l c' q.
 Proof.
   intros c l c' q Hs IT DI U Hn. unfold step in Hs.
-  destruct l as [s0 t0|s0 t0 u0|s0 t0| |i ok|i ok|i|i s0|i|vis|i|s0|s0|s0].
-  - eapply cons_client_sub; eauto. destruct Hn as [Hn|Hn]; [exact Hn|discriminate].
-  - eapply cons_client_leave; eauto. destruct Hn as [Hn|Hn]; [exact Hn|discriminate].
-  - eapply cons_client_del; eauto. destruct Hn as [Hn|Hn]; [exact Hn|discriminate].
-  - eapply cons_hubjoin; eauto.
-  - eapply cons_initdone; eauto.
-  - eapply cons_topicreg; eauto.
+  destruct l as [s0 t0 ch0|s0 t0 u0 ch0|s0 t0| |i ok|i ok|i|i s0|i|vis|i|s0|s0|s0].
+  - apply conserves0_conserves. eapply cons_client_sub; eauto. destruct Hn as [Hn|Hn]; [exact Hn|discriminate].
+  - apply conserves0_conserves. eapply cons_client_leave; eauto. destruct Hn as [Hn|Hn]; [exact Hn|discriminate].
+  - apply conserves0_conserves. eapply cons_client_del; eauto. destruct Hn as [Hn|Hn]; [exact Hn|discriminate].
+  - apply conserves0_conserves. eapply cons_hubjoin; eauto.
+  - apply conserves0_conserves. eapply cons_initdone; eauto.
+  - apply conserves0_conserves. eapply cons_topicreg; eauto.
   - eapply cons_topicunreg; eauto.
   - (* Evict *)
     simpl in Hs. destruct (negb (is_run (i_phase (c_inst c i))) || negb (mem s0 (i_sessions (c_inst c i)))); [discriminate|].
-    destruct (inactive (c_inst c i)); inv_some; apply cons_same; auto.
+    destruct (inactive (c_inst c i)); inv_some; apply conserves0_conserves; apply cons_same; auto.
     unfold acct, queuedN. simpl. f_equal. sess_eq.
   - simpl in Hs. destruct (negb (is_run (i_phase (c_inst c i)))); [discriminate|].
-    destruct (i_sessions (c_inst c i)); inv_some. apply cons_same. acct_simpl. lia.
-  - eapply cons_hubunreg; eauto.
+    destruct (i_sessions (c_inst c i)); inv_some. apply conserves0_conserves. apply cons_same. acct_simpl. lia.
+  - apply conserves0_conserves. eapply cons_hubunreg; eauto.
   - (* TopicExit *)
     simpl in Hs. destruct (negb (is_run (i_phase (c_inst c i)))); [discriminate|].
-    destruct (take_first i (c_texit c)) as [[b exit']|]; inv_some. apply cons_same.
+    destruct (take_first i (c_texit c)) as [[b exit']|]; inv_some. apply conserves0_conserves. apply cons_same.
     unfold acct, queuedN. simpl. f_equal. destruct (mem (r_sid q) (i_sessions (c_inst c i))); auto. apply ans_detach.
-  - simpl in Hs. destruct (s_detachq (c_sess c s0)); inv_some. apply cons_same.
+  - simpl in Hs. destruct (s_detachq (c_sess c s0)); inv_some. apply conserves0_conserves. apply cons_same.
     unfold acct, queuedN. simpl. f_equal. sess_eq.
-  - simpl in Hs. destruct (s_term (c_sess c s0)); inv_some. apply cons_same.
+  - simpl in Hs. destruct (s_term (c_sess c s0)); inv_some. apply conserves0_conserves. apply cons_same.
     unfold acct, queuedN. simpl. f_equal. sess_eq.
   - simpl in Hs. destruct (negb (s_term (c_sess c s0)) || s_done (c_sess c s0) || negb (s_inflight (c_sess c s0) =? 0)); inv_some.
-    apply cons_same. unfold acct, queuedN. simpl. rewrite cP_app, cP_all_internal by reflexivity. f_equal; [sess_eq|lia].
+    apply conserves0_conserves. apply cons_same. unfold acct, queuedN. simpl. rewrite cP_app, cP_all_internal by reflexivity. f_equal; [sess_eq|lia].
 Qed.
 
 (* ---------- the invariant over instrumented executions ---------- *)
 
 Inductive reachI (st : tid -> bool) (ow : tid -> uid) (us : sid -> uid) : config -> list req -> Prop :=
-| ri_init : reachI st ow us (init_config st ow us) []
+| ri_init : forall ch, reachI st ow us (init_config st ow us ch) []
 | ri_step : forall c iss l c', reachI st ow us c iss -> step c l c' -> reachI st ow us c' (issue c l ++ iss).
 
-(* executions in which none of the silent steps occurs *)
+(* executions in which the step that answers twice does not occur *)
+Inductive reachI_nd (st : tid -> bool) (ow : tid -> uid) (us : sid -> uid) : config -> list req -> Prop :=
+| rn_init : forall ch, reachI_nd st ow us (init_config st ow us ch) []
+| rn_step : forall c iss l c', reachI_nd st ow us c iss -> noisy c l = false -> step c l c' ->
+                               reachI_nd st ow us c' (issue c l ++ iss).
+
+(* executions in which none of the silent steps occurs, nor the one that answers twice *)
 Inductive reachI_ok (st : tid -> bool) (ow : tid -> uid) (us : sid -> uid) : config -> list req -> Prop :=
-| rk_init : reachI_ok st ow us (init_config st ow us) []
-| rk_step : forall c iss l c', reachI_ok st ow us c iss -> lossy c l = false -> step c l c' ->
+| rk_init : forall ch, reachI_ok st ow us (init_config st ow us ch) []
+| rk_step : forall c iss l c', reachI_ok st ow us c iss -> lossy c l = false -> noisy c l = false -> step c l c' ->
                                reachI_ok st ow us c' (issue c l ++ iss).
 
 Lemma reachI_ok_reachI : forall st ow us c iss, reachI_ok st ow us c iss -> reachI st ow us c iss.
+Proof. induction 1; [constructor|econstructor; eauto]. Qed.
+
+Lemma reachI_nd_reachI : forall st ow us c iss, reachI_nd st ow us c iss -> reachI st ow us c iss.
+Proof. induction 1; [constructor|econstructor; eauto]. Qed.
+
+Lemma reachI_ok_nd : forall st ow us c iss, reachI_ok st ow us c iss -> reachI_nd st ow us c iss.
 Proof. induction 1; [constructor|econstructor; eauto]. Qed.
 
 Lemma reachI_reach : forall st ow us c iss, reachI st ow us c iss -> reach st ow us c.
 Proof. induction 1; [constructor|econstructor; eauto]. Qed.
 
 Lemma reach_reachI : forall st ow us c, reach st ow us c -> exists iss, reachI st ow us c iss.
-Proof. induction 1 as [|c l c' Hr [iss IH] Hs]; [exists []; constructor|]. exists (issue c l ++ iss). econstructor; eauto. Qed.
+Proof. induction 1 as [ch|c l c' Hr [iss IH] Hs]; [exists []; constructor|]. exists (issue c l ++ iss). econstructor; eauto. Qed.
 
 Definition fresh (c : config) : Prop :=
   forall s n, c_nextrid c <= n -> ans n (c_sess c s) = 0 /\ queuedN n c = 0.
@@ -651,17 +761,39 @@ Proof.
   - apply in_dels in H. pose proof (cR_in_pos n _ _ H Hh). lia.
 Qed.
 
+Lemma nextrid_unreg_step : forall c i a e c', unreg_step c i a e = Some c' -> c_nextrid c' = c_nextrid c.
+Proof.
+  intros c i a e c' Hs. unfold unreg_step in Hs.
+  destruct (negb (is_run (i_phase (c_inst c i)))); [discriminate|].
+  destruct (take_first i (c_tunreg c)) as [[q unreg']|]; [|discriminate]. simpl in Hs. inv_some.
+  destruct (inactive (c_inst c i)); destruct (r_init q); try (destruct (r_kind q) as [|[|]|]); simpl;
+    repeat match goal with |- context [if ?b then _ else _] => destruct b eqn:?; simpl end; auto.
+Qed.
+
 Lemma nextrid_step : forall c l c', step c l c' ->
   (issue c l = [] /\ c_nextrid c' = c_nextrid c) \/
   (exists q, issue c l = [q] /\ r_rid q = c_nextrid c /\ r_init q = true /\ c_nextrid c' = S (c_nextrid c) /\
              s_term (c_sess c (r_sid q)) = false).
 Proof.
   intros c l c' Hs. unfold step in Hs.
-  destruct l as [s0 t0|s0 t0 u0|s0 t0| |i ok|i ok|i|i s0|i|vis|i|s0|s0|s0]; simpl in Hs;
+  destruct l as [s0 t0 ch0|s0 t0 u0 ch0|s0 t0| |i ok|i ok|i|i s0|i|vis|i|s0|s0|s0]; simpl in Hs;
     try (left; split; [reflexivity|]; exec_split Hs; inv_some; reflexivity).
   - right. destruct (s_term (c_sess c s0)) eqn:Et; [discriminate|]. exec_split Hs; inv_some; eexists; simpl; repeat split; auto.
   - right. destruct (s_term (c_sess c s0)) eqn:Et; [discriminate|]. exec_split Hs; inv_some; eexists; simpl; repeat split; auto.
   - right. destruct (s_term (c_sess c s0)) eqn:Et; [discriminate|]. exec_split Hs; inv_some; eexists; simpl; repeat split; auto.
+  - left. split; [reflexivity|].
+    destruct (exec_unreg_inv _ _ _ Hs) as (r0 & rest0 & aC & eR & _ & _ & Hu).
+    rewrite (nextrid_unreg_step _ _ _ _ _ Hu).
+    destruct (pre404_frame c r0 eR) as (_ & _ & _ & _ & _ & _ & _ & _ & _ & _ & _ & _ & -> & _). reflexivity.
+Qed.
+
+Lemma hunreg_unreg_step : forall c i a e c', unreg_step c i a e = Some c' -> c_hunreg c' = c_hunreg c.
+Proof.
+  intros c i a e c' Hs. unfold unreg_step in Hs.
+  destruct (negb (is_run (i_phase (c_inst c i)))); [discriminate|].
+  destruct (take_first i (c_tunreg c)) as [[q unreg']|]; [|discriminate]. simpl in Hs. inv_some.
+  destruct (inactive (c_inst c i)); destruct (r_init q); try (destruct (r_kind q) as [|[|]|]); simpl;
+    repeat match goal with |- context [if ?b then _ else _] => destruct b eqn:?; simpl end; auto.
 Qed.
 
 Lemma dels_init_step : forall c l c', dels_init c -> step c l c' -> dels_init c'.
@@ -670,7 +802,7 @@ Proof.
   destruct (r_init r) eqn:Hri; auto. exfalso.
   (* a delete message in the hub's queue either was there or has just been issued by ClientDel *)
   unfold step in Hs.
-  destruct l as [s0 t0|s0 t0 u0|s0 t0| |i ok|i ok|i|i s0|i|vis|i|s0|s0|s0]; simpl in Hs.
+  destruct l as [s0 t0 ch0|s0 t0 u0 ch0|s0 t0| |i ok|i ok|i|i s0|i|vis|i|s0|s0|s0]; simpl in Hs.
   - exec_split Hs; inv_some; simpl in Hin; apply H in Hin; congruence.
   - exec_split Hs; inv_some; simpl in Hin; apply H in Hin; congruence.
   - exec_split Hs; inv_some. simpl in Hin. apply in_app_or in Hin. destruct Hin as [Hin|[Hin|[]]]; [apply H in Hin; congruence|].
@@ -684,14 +816,11 @@ Proof.
   - destruct (negb (is_run (i_phase (c_inst c i)))); [discriminate|].
     destruct (take_first i (c_treg c)) as [[q reg']|]; [|discriminate]. simpl in Hs. inv_some.
     assert (X : In (HDel r) (c_hunreg c)).
-    { revert Hin. destruct (inactive (c_inst c i)); [|destruct (lookup _ _); [|destruct ok]]; simpl; auto. }
+    { revert Hin. destruct (inactive (c_inst c i)); [|destruct (lookup _ _); [|destruct (verify_chan _ _ _) as [aC [|]]; [|destruct ok]]]; simpl; auto. }
     apply H in X. congruence.
-  - destruct (negb (is_run (i_phase (c_inst c i)))); [discriminate|].
-    destruct (take_first i (c_tunreg c)) as [[q unreg']|]; [|discriminate]. simpl in Hs. inv_some.
-    assert (X : In (HDel r) (c_hunreg c)).
-    { revert Hin. destruct (inactive (c_inst c i)); destruct (r_init q); try (destruct (r_kind q) as [|[|]|]); simpl;
-        repeat match goal with |- context [if ?b then _ else _] => destruct b eqn:?; simpl end; auto. }
-    apply H in X. congruence.
+  - destruct (exec_unreg_inv _ _ _ Hs) as (r0 & rest0 & aC & eR & _ & _ & Hu).
+    rewrite (hunreg_unreg_step _ _ _ _ _ Hu) in Hin.
+    destruct (pre404_frame c r0 eR) as (_ & _ & _ & _ & E5 & _). rewrite E5 in Hin. apply H in Hin. congruence.
   - exec_split Hs; inv_some; simpl in Hin; apply H in Hin; congruence.
   - exec_split Hs; inv_some. simpl in Hin. apply in_app_or in Hin. destruct Hin as [Hin|[Hin|[]]]; [apply H in Hin; congruence|discriminate].
   - destruct (c_hunreg c) as [|[t1|q] rest] eqn:E; [discriminate| |]; simpl in Hs.
@@ -712,8 +841,7 @@ Record inv_rep (c : config) (iss : list req) : Prop := mkIR {
   ir_iss : forall q, In q iss -> r_rid q < c_nextrid c /\ r_init q = true;
   ir_nodup : NoDup (map r_rid iss);
   ir_dels : dels_init c;
-  ir_fresh : fresh c;
-  ir_le1 : forall q, In q iss -> acct q c <= 1 }.
+  ir_fresh : fresh c }.
 
 Lemma NoDup_map_inj : forall (A B : Type) (f : A -> B) (l : list A) a b,
   NoDup (map f l) -> In a l -> In b l -> f a = f b -> a = b.
@@ -730,7 +858,7 @@ Proof. intros n r H. unfold hit in H. apply andb_true_iff in H. destruct H as [A
 
 Lemma uniq_of_inv : forall c iss q, inv_rep c iss -> In q iss -> uniq q c.
 Proof.
-  intros c iss q [I1 I2 I3 _ _ _] Hq r Hr Hh. destruct (hit_true _ _ Hh) as [A B].
+  intros c iss q [I1 I2 I3 _ _] Hq r Hr Hh. destruct (hit_true _ _ Hh) as [A B].
   eapply NoDup_map_inj; eauto.
 Qed.
 
@@ -744,7 +872,7 @@ Qed.
 Lemma new_acct : forall c l c' q, step c l c' -> fresh c -> issue c l = [q] -> acct q c' = 1.
 Proof.
   intros c l c' q Hs F Hi. unfold step in Hs.
-  destruct l as [s0 t0|s0 t0 u0|s0 t0| |i ok|i ok|i|i s0|i|vis|i|s0|s0|s0]; simpl in Hi; try discriminate; inversion Hi; subst q; clear Hi; simpl in Hs.
+  destruct l as [s0 t0 ch0|s0 t0 u0 ch0|s0 t0| |i ok|i ok|i|i s0|i|vis|i|s0|s0|s0]; simpl in Hi; try discriminate; inversion Hi; subst q; clear Hi; simpl in Hs.
   - destruct (F s0 (c_nextrid c) (le_n _)) as [A Q]. unfold queuedN in Q.
     destruct (s_term (c_sess c s0)) eqn:Et; [discriminate|]. simpl in Hs.
     destruct (negb (s_inflight (c_sess c s0) =? 0)); [discriminate|].
@@ -762,7 +890,7 @@ Proof.
     acct_simpl. unfold hit. simpl. rewrite Nat.eqb_refl. simpl. lia.
 Qed.
 
-Lemma inv_rep_init : forall st ow us, inv_rep (init_config st ow us) [].
+Lemma inv_rep_init : forall st ow us ch, inv_rep (init_config st ow us ch) [].
 Proof.
   intros. constructor; simpl; intros; try contradiction.
   - unfold inq in H0. simpl in H0. tauto.
@@ -771,9 +899,21 @@ Proof.
   - intros s n Hn. split; reflexivity.
 Qed.
 
+(* a request id that has not been issued yet is not the one the noisy step answers twice *)
+Lemma extra_fresh : forall c l q, fresh c -> c_nextrid c <= r_rid q -> extra c l q = 0.
+Proof.
+  intros c l q F Hn. destruct l; simpl; auto.
+  destruct (take_first i (c_tunreg c)) as [[r rest]|] eqn:E; auto.
+  destruct (hit (r_rid q) r) eqn:Hh; [|rewrite andb_false_r; reflexivity]. exfalso.
+  destruct (in_take_first _ _ _ _ _ E) as [Hin _].
+  destruct (F (r_sid q) (r_rid q) Hn) as [_ Q].
+  assert (X : inq r c) by (right; right; right; left; eapply in_map_snd; eauto).
+  pose proof (inq_hit_pos _ _ _ X Hh). lia.
+Qed.
+
 Lemma inv_rep_step : forall c iss l c', inv_rep c iss -> init_true c -> step c l c' -> inv_rep c' (issue c l ++ iss).
 Proof.
-  intros c iss l c' I IT Hs. pose proof I as [I1 I2 I3 I4 I5 I6].
+  intros c iss l c' I IT Hs. pose proof I as [I1 I2 I3 I4 I5].
   pose proof (nextrid_step _ _ _ Hs) as Hn.
   constructor.
   - intros r Hi Hr. apply in_or_app. destruct (inq_step _ _ _ Hs r Hi Hr); auto.
@@ -785,20 +925,13 @@ Proof.
   - eapply dels_init_step; eauto.
   - intros s n Hle.
     assert (Hle0 : c_nextrid c <= n) by (destruct Hn as [(_ & En)|(q0 & _ & _ & _ & En & _)]; lia).
-    set (q := mkReq s n KSub 0 true).
+    set (q := mkReq s n KSub 0 true false).
     assert (U : uniq q c) by (apply uniq_fresh; auto).
     assert (Hd : r_rid q <> c_nextrid c \/ issue c l = []).
     { destruct Hn as [(E & _)|(q0 & _ & _ & _ & En & _)]; [right; exact E|left; simpl; lia]. }
     destruct (conserves_step _ _ _ q Hs IT I4 U Hd) as [Hc _].
+    rewrite (extra_fresh c l q I5 Hle0) in Hc.
     destruct (I5 s n Hle0) as [A Q]. unfold acct in Hc. simpl in Hc. lia.
-  - intros q Hq. apply in_app_or in Hq. destruct Hn as [(E & En)|(q0 & E & A & B & En & _)]; rewrite E in Hq; simpl in Hq.
-    + destruct Hq as [[]|Hq].
-      destruct (conserves_step _ _ _ q Hs IT I4 (uniq_of_inv _ _ _ I Hq) (or_intror E)) as [Hc _].
-      specialize (I6 _ Hq). lia.
-    + destruct Hq as [[<-|[]]|Hq]; [rewrite (new_acct _ _ _ _ Hs I5 E); lia|].
-      assert (Hd : r_rid q <> c_nextrid c) by (destruct (I2 _ Hq); lia).
-      destruct (conserves_step _ _ _ q Hs IT I4 (uniq_of_inv _ _ _ I Hq) (or_introl Hd)) as [Hc _].
-      specialize (I6 _ Hq). lia.
 Qed.
 
 Lemma inv_rep_reach : forall st ow us c iss, reachI st ow us c iss -> inv_rep c iss.
@@ -832,10 +965,19 @@ Ltac out_tac :=
     | match goal with |- context [if ?b then _ else _] => destruct b eqn:?; simpl end ];
   repeat first [apply in_out_reply | apply in_out_detach]; simpl; auto; try congruence.
 
+Lemma out_unreg_step : forall c i a e c', unreg_step c i a e = Some c' ->
+  forall s p, In p (s_out (c_sess c s)) -> In p (s_out (c_sess c' s)).
+Proof.
+  intros c i a e c' Hs s p Hin. unfold unreg_step in Hs.
+  destruct (negb (is_run (i_phase (c_inst c i)))); [discriminate|].
+  destruct (take_first i (c_tunreg c)) as [[r unreg']|]; [|discriminate]. simpl in Hs. inv_some.
+  destruct (inactive (c_inst c i)); destruct (r_init r); try (destruct (r_kind r) as [|[|]|]); out_tac.
+Qed.
+
 Lemma out_grows : forall c l c', step c l c' -> forall s p, In p (s_out (c_sess c s)) -> In p (s_out (c_sess c' s)).
 Proof.
   intros c l c' Hs s p Hin. unfold step in Hs.
-  destruct l as [s0 t0|s0 t0 u0|s0 t0| |i ok|i ok|i|i s0|i|vis|i|s0|s0|s0]; simpl in Hs.
+  destruct l as [s0 t0 ch0|s0 t0 u0 ch0|s0 t0| |i ok|i ok|i|i s0|i|vis|i|s0|s0|s0]; simpl in Hs.
   - exec_split Hs; inv_some; out_tac.
   - exec_split Hs; inv_some; out_tac.
   - exec_split Hs; inv_some; out_tac.
@@ -850,10 +992,9 @@ Proof.
       destruct (take_first i (c_texit c)) as [[b e]|]; inv_some; out_tac.
   - destruct (negb (is_run (i_phase (c_inst c i)))); [discriminate|].
     destruct (take_first i (c_treg c)) as [[r reg']|]; [|discriminate]. simpl in Hs. inv_some.
-    destruct (inactive (c_inst c i)); [|destruct (lookup _ _); [|destruct ok]]; out_tac.
-  - destruct (negb (is_run (i_phase (c_inst c i)))); [discriminate|].
-    destruct (take_first i (c_tunreg c)) as [[r unreg']|]; [|discriminate]. simpl in Hs. inv_some.
-    destruct (inactive (c_inst c i)); destruct (r_init r); try (destruct (r_kind r) as [|[|]|]); out_tac.
+    destruct (inactive (c_inst c i)); [|destruct (lookup _ _); [|destruct (verify_chan _ _ _) as [aC [|]]; [|destruct ok]]]; out_tac.
+  - destruct (exec_unreg_inv _ _ _ Hs) as (r0 & rest0 & aC & eR & _ & _ & Hu).
+    eapply out_unreg_step; [exact Hu|]. unfold pre404. destruct eR; auto. out_tac.
   - exec_split Hs; inv_some; out_tac.
   - exec_split Hs; inv_some; out_tac.
   - destruct (c_hunreg c) as [|[t1|q] rest]; [discriminate| |]; simpl in Hs.
@@ -888,9 +1029,9 @@ Definition good (q : req) (c : config) : Prop :=
 Lemma good_reach_ok : forall st ow us c iss, reachI_ok st ow us c iss ->
   forall q, In q iss -> s_term (c_sess c (r_sid q)) = false -> good q c.
 Proof.
-  induction 1 as [|c iss l c' Hr IH Hl Hs]; [contradiction|].
+  induction 1 as [ch|c iss l c' Hr IH Hl Hnz Hs]; [contradiction|].
   pose proof (reachI_ok_reachI _ _ _ _ _ Hr) as HrI.
-  pose proof (inv_rep_reach _ _ _ _ _ HrI) as I. pose proof I as [I1 I2 I3 I4 I5 I6].
+  pose proof (inv_rep_reach _ _ _ _ _ HrI) as I. pose proof I as [I1 I2 I3 I4 I5].
   assert (IT : init_true c) by (eapply init_true_reach; eapply reachI_reach; eauto).
   intros q Hq Ht. apply in_app_or in Hq.
   destruct (nextrid_step _ _ _ Hs) as [(E & En)|(q0 & E & A & B & En & _)]; rewrite E in Hq; simpl in Hq.
@@ -898,22 +1039,51 @@ Proof.
     assert (Ht0 : s_term (c_sess c (r_sid q)) = false).
     { destruct (s_term (c_sess c (r_sid q))) eqn:X; auto. rewrite (term_mono _ _ _ _ Hs X) in Ht. discriminate. }
     destruct (conserves_step _ _ _ q Hs IT I4 (uniq_of_inv _ _ _ I Hq) (or_intror E)) as [Hc Hk].
+    rewrite (extra_quiet _ _ q Hnz) in Hc.
     destruct (IH q Hq Ht0) as [G|(G1 & G2 & G3)].
-    + destruct (Hk Ht Hl) as [X|(X & Y & Z)]; [left; lia|right; repeat split; auto; lia].
+    + destruct (Hk Ht Hl Hnz) as [X|(X & Y & Z)]; [left; lia|right; repeat split; auto; lia].
     + right. repeat split; auto; [lia|eapply noticed_mono; eauto].
   - destruct Hq as [[<-|[]]|Hq]; [left; eapply new_acct; eauto|].
     assert (Ht0 : s_term (c_sess c (r_sid q)) = false).
     { destruct (s_term (c_sess c (r_sid q))) eqn:X; auto. rewrite (term_mono _ _ _ _ Hs X) in Ht. discriminate. }
     assert (Hd : r_rid q <> c_nextrid c) by (destruct (I2 _ Hq); lia).
     destruct (conserves_step _ _ _ q Hs IT I4 (uniq_of_inv _ _ _ I Hq) (or_introl Hd)) as [Hc Hk].
+    rewrite (extra_quiet _ _ q Hnz) in Hc.
     destruct (IH q Hq Ht0) as [G|(G1 & G2 & G3)].
-    + destruct (Hk Ht Hl) as [X|(X & Y & Z)]; [left; lia|right; repeat split; auto; lia].
+    + destruct (Hk Ht Hl Hnz) as [X|(X & Y & Z)]; [left; lia|right; repeat split; auto; lia].
     + right. repeat split; auto; [lia|eapply noticed_mono; eauto].
 Qed.
 
-(* at most once, on EVERY execution: a request is never answered twice, never both answered and still queued *)
-Lemma at_most_once : forall st ow us c iss, reachI st ow us c iss -> forall q, In q iss -> acct q c <= 1.
-Proof. intros st ow us c iss H. apply (ir_le1 _ _ (inv_rep_reach _ _ _ _ _ H)). Qed.
+(* at most once, on every execution without the step that answers twice: a request is never answered twice, never
+   both answered and still queued *)
+Lemma at_most_once : forall st ow us c iss, reachI_nd st ow us c iss -> forall q, In q iss -> acct q c <= 1.
+Proof.
+  induction 1 as [ch|c iss l c' Hr IH Hnz Hs]; [contradiction|].
+  pose proof (reachI_nd_reachI _ _ _ _ _ Hr) as HrI.
+  pose proof (inv_rep_reach _ _ _ _ _ HrI) as I. pose proof I as [I1 I2 I3 I4 I5].
+  assert (IT : init_true c) by (eapply init_true_reach; eapply reachI_reach; eauto).
+  intros q Hq. apply in_app_or in Hq.
+  destruct (nextrid_step _ _ _ Hs) as [(E & En)|(q0 & E & A & B & En & _)]; rewrite E in Hq; simpl in Hq.
+  - destruct Hq as [[]|Hq].
+    destruct (conserves_step _ _ _ q Hs IT I4 (uniq_of_inv _ _ _ I Hq) (or_intror E)) as [Hc _].
+    rewrite (extra_quiet _ _ q Hnz) in Hc. specialize (IH _ Hq). lia.
+  - destruct Hq as [[<-|[]]|Hq]; [rewrite (new_acct _ _ _ _ Hs I5 E); lia|].
+    assert (Hd : r_rid q <> c_nextrid c) by (destruct (I2 _ Hq); lia).
+    destruct (conserves_step _ _ _ q Hs IT I4 (uniq_of_inv _ _ _ I Hq) (or_introl Hd)) as [Hc _].
+    rewrite (extra_quiet _ _ q Hnz) in Hc. specialize (IH _ Hq). lia.
+Qed.
+
+(* on EVERY execution: one step adds at most one to the account of a request, and only the step named in [noisy] *)
+Lemma at_most_one_more : forall st ow us c iss l c' q, reachI st ow us c iss -> In q iss -> step c l c' ->
+  acct q c' <= acct q c + extra c l q /\ extra c l q <= 1.
+Proof.
+  intros st ow us c iss l c' q H Hq Hs.
+  pose proof (inv_rep_reach _ _ _ _ _ H) as I. pose proof I as [I1 I2 I3 I4 I5].
+  assert (IT : init_true c) by (eapply init_true_reach; eapply reachI_reach; eauto).
+  assert (Hd : r_rid q <> c_nextrid c \/ issue c l = []) by (left; destruct (I2 _ Hq); lia).
+  destruct (conserves_step _ _ _ q Hs IT I4 (uniq_of_inv _ _ _ I Hq) Hd) as [Hc _]. split; auto.
+  destruct l; simpl; auto. destruct (take_first _ _) as [[r rest]|]; auto. destruct (_ && _); auto.
+Qed.
 
 (* at quiescence nothing is queued: the request of a live session has exactly one reply (or the notice) *)
 Lemma quiescent_queued0 : forall c n, quiescent c -> queuedN n c = 0.
@@ -948,16 +1118,49 @@ Qed.
 (* session 1 (not the owner) attaches to topic 1, unsubscribes, and sends {leave} before its write loop has
    applied the detach notice: the second request reaches the topic, which no longer lists the session *)
 Definition leave_after_unsub_trace : list label :=
-  [ClientSub 1 1; HubJoin; InitDone 0 true; TopicReg 0 true;
-   ClientLeave 1 1 true; TopicUnreg 0; ClientLeave 1 1 false; TopicUnreg 0; SessDetach 1].
+  [ClientSub 1 1 false; HubJoin; InitDone 0 true; TopicReg 0 true;
+   ClientLeave 1 1 true false; TopicUnreg 0; ClientLeave 1 1 false false; TopicUnreg 0; SessDetach 1].
 
 Lemma leave_after_unsub_lost : exists c iss q,
-  runI leave_after_unsub_trace (init_config ex_stored ex_owner ex_user) [] = Some (c, iss) /\
+  runI leave_after_unsub_trace (init_config ex_stored ex_owner ex_user ex_chan) [] = Some (c, iss) /\
   In q iss /\ r_kind q = KLeave false /\ s_term (c_sess c (r_sid q)) = false /\
   acct q c = 0 /\ noticed q c = false /\ quiescent c.
 Proof.
-  eexists. eexists. exists (mkReq 1 3 (KLeave false) 1 true).
+  eexists. eexists. exists (mkReq 1 3 (KLeave false) 1 true false).
   split; [vm_compute; reflexivity|]. split; [left; reflexivity|].
   split; [reflexivity|]. split; [reflexivity|]. split; [reflexivity|]. split; [reflexivity|].
   unfold quiescent. simpl. repeat split. intros s. destruct s as [|[|[|s]]]; reflexivity.
 Qed.
+
+(* ---------- witness: a group topic without channel functionality left by its channel name ---------- *)
+
+(* session 1 attaches to topic 1 (no channel functionality: ex_chan) by its group name and sends {leave} addressed
+   as chnXXX: the topic answers 404 (verifyChannelAccess) AND 200 (the session is detached) *)
+Definition chn_leave_twice_trace : list label :=
+  [ClientSub 1 1 false; HubJoin; InitDone 0 true; TopicReg 0 true; ClientLeave 1 1 false true; TopicUnreg 0].
+
+Lemma chn_leave_twice : exists c iss q,
+  runI chn_leave_twice_trace (init_config ex_stored ex_owner ex_user ex_chan) [] = Some (c, iss) /\
+  In q iss /\ acct q c = 2 /\ ans (r_rid q) (c_sess c (r_sid q)) = 2 /\ quiescent c /\
+  s_out (c_sess c 1) = [mkRep (Some 1) COk 1; mkRep (Some 2) CNotFound 1; mkRep (Some 2) COk 1] /\
+  lookup 1 (s_subs (c_sess c 1)) = None /\ i_sessions (c_inst c 0) = [].
+Proof.
+  eexists. eexists. exists (mkReq 1 2 (KLeave false) 1 true true).
+  split; [vm_compute; reflexivity|]. split; [left; reflexivity|].
+  split; [reflexivity|]. split; [reflexivity|]. split; [|repeat split].
+  unfold quiescent. simpl. repeat split. intros s. destruct s as [|[|[|s]]]; reflexivity.
+Qed.
+
+(* ---------- witness: a channel subscription left by the group name ---------- *)
+
+(* topic 1 WITH channel functionality; session 1 attaches as chnXXX and sends {leave} addressed as grpXXX: answered
+   404 once, and detached on BOTH sides (remSession and delSub come before the name-form check) *)
+Definition ex_chan1 (t : tid) : bool := Nat.eqb t 1.
+Definition chan_leave_by_group_name_trace : list label :=
+  [ClientSub 1 1 true; HubJoin; InitDone 0 true; TopicReg 0 true; ClientLeave 1 1 false false; TopicUnreg 0].
+
+Lemma chan_leave_by_group_name : exists c,
+  run chan_leave_by_group_name_trace (init_config ex_stored ex_owner ex_user ex_chan1) = Some c /\
+  s_out (c_sess c 1) = [mkRep (Some 1) COk 1; mkRep (Some 2) CNotFound 1] /\
+  lookup 1 (s_subs (c_sess c 1)) = None /\ i_sessions (c_inst c 0) = [] /\ i_chansub (c_inst c 0) = [].
+Proof. eexists. split; [vm_compute; reflexivity|]. repeat split. Qed.
